@@ -235,6 +235,35 @@ class LoopMixin:
                 self.acc_alias[missing[0]] = cands[0]
                 spec = dict(spec, types=dict(spec.get("types", {}), **{cands[0]: spec["types"][missing[0]]}))
         invs = spec.get("invariant", [])
+        # the same for a renamed *counter*: an invariant names a local that does not exist (any more) while the loop body augments exactly one
+        # visible integer local that no invariant mentions -- the contract's name becomes an alias of that local
+        try:
+            trees_ = [self.verifier.parse_clause(inv) for inv in invs]
+            called_ = {n_.func.id for t_ in trees_ for n_ in ast.walk(t_) if isinstance(n_, ast.Call) and isinstance(n_.func, ast.Name)}
+            inv_names = {n_.id for t_ in trees_ for n_ in ast.walk(t_) if isinstance(n_, ast.Name)} - called_
+        except Exception:      # noqa
+            inv_names = set()
+        aug = {t_.target.id for s_ in node.body for t_ in ast.walk(s_) if isinstance(t_, ast.AugAssign) and isinstance(t_.target, ast.Name)}
+        for nm_ in sorted(inv_names):
+            if nm_ in vis or nm_ in self.run.ghost or nm_ in getattr(self, "acc_alias", {}) or not nm_.isidentifier() or nm_.startswith("_"):
+                continue
+            try:
+                self.pure += 1
+                try:
+                    self.eval(ast.Name(id=nm_, ctx=ast.Load()), self.inv_frame(frame, {}))
+                finally:
+                    self.pure -= 1
+                continue                       # resolvable (a specification function, a builtin, a parameter)
+            except E.Unsupported as ex_:
+                if "not resolvable" not in str(ex_):
+                    continue
+            except Exception:      # noqa
+                continue
+            cands = [x_ for x_ in sorted(aug) if x_ in vis and x_ not in inv_names and isinstance(vis[x_], VInt)]
+            if len(cands) == 1:
+                if not hasattr(self, "acc_alias"):
+                    self.acc_alias = {}
+                self.acc_alias[nm_] = cands[0]
         for i, inv in enumerate(invs):
             self.ctx.oblige(self, "loop-init", f"{header}#{i}", self.eval_inv(inv, frame, {"_k": VInt(0), "_n": VInt(n)}),
                             "", True, text=inv)
